@@ -526,22 +526,35 @@ impl Object for ObjCont {
                 match mode {
                     0 => return rv,
                     4 => {
+                        user_flag(1);
                         let _ = f.write_str("]");
                         return rv;
                     }
-                    _ => {}
+                    _ => user_flag(1),
                 }
             }
             first = first.and(rv);
             last = rv;
         }
         let closing = f.write_str("]");
-        match mode {
+        let ret = match mode {
             1 => first.and(closing),
             2 => Ok(()),
             3 => closing.and(last),
             _ => closing,
+        };
+        if (first.is_err() || closing.is_err()) && ret.is_ok() {
+            user_flag(2);
         }
+        ret
+    }
+}
+
+/// serializing this fails: `Value::from_serialize` turns it into an *invalid* value
+struct BadSer;
+impl serde::Serialize for BadSer {
+    fn serialize<S: serde::Serializer>(&self, _s: S) -> Result<S::Ok, S::Error> {
+        Err(serde::ser::Error::custom("inj-bad-value"))
     }
 }
 
@@ -558,6 +571,15 @@ impl fmt::Display for UserDisp {
 thread_local! {
     /// which way of writing the user formatter uses for its next call (reset before every render)
     static UCOUNT: std::cell::Cell<usize> = const { std::cell::Cell::new(0) };
+    /// what the harness's own user code did in this run: bit 0 = it went on (wrote again, or dropped
+    /// the error) after one of its writes had failed; bit 1 = it reported success although one of
+    /// its writes had failed.  Without either, "rendering stops" means: the operation log ends at
+    /// the failed write.
+    static UFLAGS: std::cell::Cell<u8> = const { std::cell::Cell::new(0) };
+}
+
+fn user_flag(bit: u8) {
+    UFLAGS.with(|f| f.set(f.get() | bit));
 }
 
 /// A user formatter (`Environment::set_formatter`) that writes a marker before every value, cycling
@@ -606,13 +628,19 @@ fn careless_formatter(out: &mut minijinja::Output, state: &mut State, value: &Va
         c.set(k + 1);
         k
     });
-    let _ = write!(out, "(");
+    let mut dropped = write!(out, "(").is_err();
     if k % 3 == 0 {
-        let _ = out.write_str("m");
-        let _ = fmt::Write::write_char(out, 'µ');
+        dropped |= out.write_str("m").is_err();
+        dropped |= fmt::Write::write_char(out, 'µ').is_err();
     }
     let rv = minijinja::escape_formatter(out, state, value);
-    let _ = write!(out, ")");
+    dropped |= write!(out, ")").is_err();
+    if dropped || rv.is_err() {
+        user_flag(1);
+        if k % 6 == 2 || rv.is_ok() {
+            user_flag(2);
+        }
+    }
     match k % 6 {
         0 => rv,
         1 => rv.map_err(|_| Error::new(ErrorKind::InvalidOperation, "user formatter failed")),
@@ -692,6 +720,28 @@ fn base_ctx() -> std::collections::BTreeMap<String, Value> {
     for m in 0..5u8 {
         put(&format!("obj_c{m}"), Value::from_object(ObjCont(m)));
     }
+    // an invalid value can only be reached through a container (a direct lookup reports its error)
+    put("inv_seq", Value::from(vec![Value::from(1), Value::from(minijinja::value::Serde(BadSer)), Value::from("z<")]));
+    // one value of every representation, to be printed nested (the `Debug` arms) and one by one
+    put(
+        "all_kinds",
+        Value::from(vec![
+            Value::from(()),
+            Value::UNDEFINED,
+            Value::from(true),
+            Value::from(7u64),
+            Value::from(-7i64),
+            Value::from(2.5),
+            Value::from(minijinja::value::Serde(BadSer)),
+            Value::from(u128::MAX),
+            Value::from(i128::MIN),
+            Value::from("a long string that does not fit the inline representation <&>"),
+            Value::from("small<"),
+            Value::from_bytes(b"b<\xff".to_vec()),
+            Value::from_object(Obj),
+            Value::from_safe_string("<safe and long enough not to be inline>".into()),
+        ]),
+    );
     put("safe_html", Value::from_safe_string("<i>safe & sound</i>".into()));
     put("small_safe", Value::from_safe_string("<s>".into()));
     put("neg_str", Value::from("-42"));
@@ -866,6 +916,9 @@ fn fixed_programs() -> Vec<Prog> {
         p("f55", "c.html", &[("c.html", "a{{ obj_c1 }}{{ obj_c2 }}b{{ html }}")], &[], &[]),
         // blocks whose objects keep writing after a failed write / report success (block rendering checks the adapter too)
         p("f56", "c.txt", &[("c.txt", "{% block a %}a{{ obj_c2 }}b{{ obj_c1 }}{{ none }}{% endblock %}|{% block b %}{{ obj_c3 }}{{ 42 }}{{ obj_c4 }}{% endblock %}{{ emit_block('a') }}")], &["a", "b"], &["a"]),
+        // every representation of a value: nested in a sequence / a map (`Debug` arms) and emitted one by one
+        p("f57", "k.txt", &[("k.txt", "{{ all_kinds }}|{{ inv_seq }}|{{ {'m': inv_seq} }}|{% for v in all_kinds[:6] %}{{ v }},{% endfor %}{% for v in all_kinds[7:] %}{{ v }},{% endfor %}{{ inv_seq[1] }}.")], &[], &[]),
+        p("f58", "k.html", &[("k.html", "{{ all_kinds }}|{{ inv_seq }}|{% for v in all_kinds[:6] %}{{ v }},{% endfor %}{% for v in all_kinds[7:] %}{{ v }},{% endfor %}{{ inv_seq[1] }}.")], &[], &[]),
         pc("f46", "m.txt", &[("m.txt", "{% for i in range(3) %}{{ i }}{% include \"x.txt\" %}{% endfor %}"), ("x.txt", "({{ loop.index }})")], EnvCfg { fuel: Some(1_000_000), loader: true, ..Default::default() }),
     ]
 }
@@ -1516,6 +1569,27 @@ fn make_env(prog: &Prog, formatter: u8) -> Result<Environment<'static>, Error> {
     Ok(env)
 }
 
+/// the opcodes of the compiled templates of a program (root instructions and blocks), `+`-joined
+fn opcodes(env: &Environment<'static>, prog: &Prog) -> String {
+    let mut set = std::collections::BTreeSet::new();
+    for (name, _) in &prog.templates {
+        let Ok(tmpl) = env.get_template(name) else { continue };
+        let compiled = minijinja::machinery::get_compiled_template(&tmpl);
+        for instrs in std::iter::once(&compiled.instructions).chain(compiled.blocks.values()) {
+            let mut i = 0;
+            while let Some(ins) = instrs.get(i) {
+                if let Ok(v) = serde_json::to_value(ins) {
+                    if let Some(op) = v.get("op").and_then(|o| o.as_str()) {
+                        set.insert(op.to_string());
+                    }
+                }
+                i += 1;
+            }
+        }
+    }
+    if set.is_empty() { "-".to_string() } else { set.into_iter().collect::<Vec<_>>().join("+") }
+}
+
 fn inj_id(msg: &str) -> u64 {
     match msg.rfind("inj-") {
         Some(i) => msg[i + 4..].chars().take_while(|c| c.is_ascii_digit()).collect::<String>().parse().unwrap_or(u64::MAX),
@@ -1705,6 +1779,23 @@ fn cut_at_first_failure(run: &[String]) -> Result<Vec<String>, usize> {
 /// one line per `Emit` of the root output that ran to completion: the auto-escape mode, the
 /// value's representation, default (`d`) or custom (`c`) formatter, the value's `Display` text,
 /// its string content, and the pieces the engine wrote for it
+/// the distinct representations of the values the root output's `Emit`s printed (`+`-joined, sorted)
+fn emit_reprs(log: &[vh::Event]) -> String {
+    let root = log.iter().find_map(|e| match e {
+        vh::Event::New { out, .. } => Some(*out),
+        _ => None,
+    });
+    let mut set = std::collections::BTreeSet::new();
+    for ev in log {
+        if let vh::Event::Emit { out, repr, .. } = ev {
+            if Some(*out) == root {
+                set.insert(*repr);
+            }
+        }
+    }
+    if set.is_empty() { "-".to_string() } else { set.into_iter().collect::<Vec<_>>().join("+") }
+}
+
 fn emit_lines(log: &[vh::Event]) -> Vec<String> {
     let root = log.iter().find_map(|e| match e {
         vh::Event::New { out, .. } => Some(*out),
@@ -1767,6 +1858,10 @@ struct Obs {
     src: String,
     osrc: String,
     ops: Vec<String>,
+    /// what the harness's user code did (see `UFLAGS`)
+    uflags: u8,
+    /// representations of the emitted values (see `emit_reprs`)
+    reprs: String,
 }
 
 /// run one API of one program against a scripted probe
@@ -1776,6 +1871,7 @@ fn run_api(env: &Environment<'static>, prog: &Prog, api: &str, script: Vec<Beh>,
     let mut outer = "-".to_string();
     let mut osrc = "na".to_string();
     UCOUNT.with(|c| c.set(0));
+    UFLAGS.with(|f| f.set(0));
     let result: Result<Result<(), Error>, String> = if is_full(api) {
         guarded(|| {
             let tmpl = env.get_template(&prog.main)?;
@@ -1787,6 +1883,7 @@ fn run_api(env: &Environment<'static>, prog: &Prog, api: &str, script: Vec<Beh>,
             let tmpl = env.get_template(&prog.main)?;
             let mut captured = tmpl.render_captured(ctx())?;
             UCOUNT.with(|c| c.set(0));
+            UFLAGS.with(|f| f.set(0));
             captured.with_state_mut(|state| {
                 vh::start();
                 state.render_block_to_write(block, &mut probe)
@@ -1817,7 +1914,7 @@ fn run_api(env: &Environment<'static>, prog: &Prog, api: &str, script: Vec<Beh>,
                 match inner {
                     Some((res, kind, src)) => {
                         let log = FN_LOG.with(|l| std::mem::take(&mut *l.borrow_mut()));
-                        return Obs { probe, res, kind, outer, src, osrc, ops: op_tokens(&log, keep_chunks) };
+                        return Obs { probe, res, kind, outer, src, osrc, ops: op_tokens(&log, keep_chunks), uflags: UFLAGS.with(|f| f.get()), reprs: emit_reprs(&log) };
                     }
                     None => Ok(o.map(|_| ())),
                 }
@@ -1832,7 +1929,7 @@ fn run_api(env: &Environment<'static>, prog: &Prog, api: &str, script: Vec<Beh>,
         Ok(Err(e)) => (describe(e), format!("{:?}", e.kind()), source_identity(e, &probe)),
     };
     let log = if api.starts_with("fn:") { FN_LOG.with(|l| std::mem::take(&mut *l.borrow_mut())) } else { vh::stop() };
-    Obs { probe, res, kind, outer, src, osrc, ops: op_tokens(&log, keep_chunks) }
+    Obs { probe, res, kind, outer, src, osrc, ops: op_tokens(&log, keep_chunks), uflags: UFLAGS.with(|f| f.get()), reprs: emit_reprs(&log) }
 }
 
 /// the string the plain render of the same API returns (None: it fails) and its operation log
@@ -1917,9 +2014,29 @@ fn plain_tokens(ops: &[String]) -> Vec<&str> {
     ops.iter().filter(|t| !t.starts_with('m')).map(|t| t.strip_suffix('!').unwrap_or(t)).collect()
 }
 
+/// "Rendering stops": what the operation log holds behind the first failed write.  `1`: nothing
+/// (the engine did nothing more on this output); with user code of the harness that went on after
+/// a failed write (`uflags` bit 0) further writes are its doing, and if it reported success (bit 1)
+/// the engine cannot know and goes on until its next write.  `0`: the engine itself went on.
+fn stop_field(o: &Obs) -> &'static str {
+    if !HOOKED {
+        return "na";
+    }
+    let Some(i) = o.ops.iter().position(|t| t.ends_with('!')) else { return "1" };
+    let rest = &o.ops[i + 1..];
+    let ok = if o.uflags & 2 != 0 {
+        true
+    } else if o.uflags & 1 != 0 {
+        rest.iter().all(|t| t.starts_with('w') || t.starts_with('c'))
+    } else {
+        rest.is_empty()
+    };
+    if ok { "1" } else { "0" }
+}
+
 fn oracle_fields(o: &Obs, reference: &[u8]) -> String {
     format!(
-        "kind={} prefix={} full={} after={} fail={} flush={} outer={} src={} osrc={}",
+        "kind={} prefix={} full={} after={} fail={} flush={} outer={} src={} osrc={} stop={} uf={}",
         o.kind,
         reference.starts_with(&o.probe.accepted) as u8,
         (reference == &o.probe.accepted[..]) as u8,
@@ -1928,7 +2045,9 @@ fn oracle_fields(o: &Obs, reference: &[u8]) -> String {
         o.probe.flushes,
         o.outer,
         o.src,
-        o.osrc
+        o.osrc,
+        stop_field(o),
+        o.uflags
     )
 }
 
@@ -2120,7 +2239,7 @@ fn run_program(prog: &Prog, tier: &str, seed: u64, out: &mut impl io::Write, emi
         let n_capemit = clean.ops.iter().filter(|t| t.starts_with("m:")).count();
         writeln!(
             out,
-            "prog\t{} {} {} {} {}\tw={} bytes={} sum={} route=ok:{}:{} same={} res={} plain={} plainops={} sinkcalls={} strapis={} flat={} capemit={} cfg={}",
+            "prog\t{} {} {} {} {}\tw={} bytes={} sum={} route=ok:{}:{} same={} res={} plain={} plainops={} sinkcalls={} strapis={} flat={} capemit={} cfg={} reprs={} ins={}",
             prog.pid,
             api,
             clean_tag,
@@ -2140,6 +2259,8 @@ fn run_program(prog: &Prog, tier: &str, seed: u64, out: &mut impl io::Write, emi
             if psyn_of(prog, &api) == "-" { "na" } else { prog.psyn.as_ref().map(|p| p.1).unwrap_or("na") },
             n_capemit,
             prog.cfg.tag(),
+            if HOOKED { clean.reprs.as_str() } else { "na" },
+            opcodes(&env, prog),
         )
         .unwrap();
         // a panicking sink: not through the template function (its probe lives in a thread-local)
